@@ -9,6 +9,7 @@
 -/
 import Grenad.Proofs.IOProofs
 import Grenad.Proofs.Wave3IO
+import Grenad.Proofs.MetaIOProofs
 
 namespace Grenad.Props.C11
 
@@ -372,3 +373,70 @@ open Grenad.Props.C11
 #print axioms C11_writer_offsets
 #print axioms C11_writer_offsets_sum
 end Audit
+
+/-! ### Opening a file through a scheduled source (`Grenad.Model.MetaIO`)
+
+`Meta.parseIO b sch` is `Metadata::read_from` call by call — `seek(End(-4))`, `read_u32`,
+`seek(End(-21|-22))`, `read_u64`, `read_u8`, codec check, `read_u64`, [`read_u8`] — every
+`read_uN` being one `read_exact` loop answered from the schedule `sch`.  `Meta.parse b` is the
+pure mirror over an in-memory cursor the rest of the model is built on. -/
+
+namespace Grenad.Props.C11
+
+open Grenad Grenad.IOM Grenad.Meta Grenad.MetaIO
+
+/-- **C11, open.**  For every byte string and every fault-free schedule — reads served in pieces
+    of any size, `Interrupted` answers anywhere — the open returns exactly what the pure parse
+    returns (the same `Metadata` or the same error), reports no I/O fault, and leaves a
+    fault-free schedule to the loads that follow. -/
+theorem C11_open_indep (b : Bytes) (sch : List RResp) (hff : RFaultFree sch) :
+    (parseIO b sch).1 = parse b ∧ (parseIO b sch).2.2 = none ∧ RFaultFree (parseIO b sch).2.1 :=
+  parseIO_ff hff b
+
+/-- Two fault-free schedules cannot be told apart from the result of the open. -/
+theorem C11_open_indep₂ (b : Bytes) (sch₁ sch₂ : List RResp) (h₁ : RFaultFree sch₁)
+    (h₂ : RFaultFree sch₂) :
+    (parseIO b sch₁).1 = (parseIO b sch₂).1 ∧ (parseIO b sch₁).2.2 = (parseIO b sch₂).2.2 := by
+  obtain ⟨a1, a2, _⟩ := parseIO_ff h₁ b
+  obtain ⟨b1, b2, _⟩ := parseIO_ff h₂ b
+  exact ⟨by rw [a1, b1], by rw [a2, b2]⟩
+
+/-- The 22-byte V2 trailer `root = 7, codec = 5, count = 3, levels = 2`. -/
+def trailerV2 : Bytes := [7, 0, 0, 0, 0, 0, 0, 0, 5, 3, 0, 0, 0, 0, 0, 0, 0, 2, 0xC4, 0xD4, 0x23, 0x67]
+
+example : trailerV2 = encode { version := 2, root := 7, codec := 5, count := 3, levels := 2 } := by
+  decide
+
+/-- the trailer read one byte at a time, every read preceded by an interruption -/
+example : parseIO trailerV2 (List.replicate 22 [RResp.interrupted, .serve 1]).flatten =
+    (.ok { version := 2, root := 7, codec := 5, count := 3, levels := 2 }, [], none) := by
+  simp [trailerV2, parseIO, parseIOL, readExact, List.replicate, leVal, magicV1, magicV2]
+
+/-- the same behind 3 bytes of payload, `serve 0` (clamped to 1), oversize serves, and a schedule
+    that runs out (an exhausted schedule serves everything): still the pure result, and the read
+    log is the five calls of `read_from` -/
+example : parseIOL ([9, 9, 9] ++ trailerV2)
+      [.serve 0, .interrupted, .interrupted, .serve 100, .serve 3, .interrupted, .serve 2] =
+    (.ok { version := 2, root := 7, codec := 5, count := 3, levels := 2 }, [], none,
+      [(21, 4), (3, 8), (11, 1), (12, 8), (20, 1)]) := by
+  simp [trailerV2, parseIOL, readExact, leVal, magicV1, magicV2]
+
+/-- the pure parse of the same bytes -/
+example : (parse trailerV2).toOption =
+    some { version := 2, root := 7, codec := 5, count := 3, levels := 2 } := by decide
+
+/-- the hypothesis of `C11_open_indep` holds for the schedule of the first example -/
+example : RFaultFree (List.replicate 22 [RResp.interrupted, .serve 1]).flatten := by
+  intro r hr t
+  simp only [List.mem_flatten, List.mem_replicate] at hr
+  obtain ⟨l, ⟨_, rfl⟩, hr⟩ := hr
+  simp at hr
+  rcases hr with rfl | rfl <;> simp
+
+end Grenad.Props.C11
+
+section AuditOpen
+open Grenad.Props.C11
+#print axioms C11_open_indep
+#print axioms C11_open_indep₂
+end AuditOpen
